@@ -135,4 +135,6 @@ Definition valid_tree (v : vn) : bool := match why v with [] => true | _ => fals
 Definition Qpow2' (k : Z) : Q := if (0 <=? k)%Z then inject_Z (2 ^ k) else (1 # Z.to_pos (2 ^ (- k))).
 Definition R (m e : int) : xq := Fin (inject_Z (Uint63.to_Z m) * Qpow2' (Uint63.to_Z e - 1200)).
 Definition RN (m e : int) : xq := Fin (- (inject_Z (Uint63.to_Z m) * Qpow2' (Uint63.to_Z e - 1200))).
+Arguments R (m e)%uint63.
+Arguments RN (m e)%uint63.
 Definition XR (x y w h : xq) : xrect := {| xr_x := x; xr_y := y; xr_w := w; xr_h := h |}.
